@@ -29,6 +29,10 @@ package git
 //@   ensures result1 ==> same(iter.data, old(iter.data)[sp+1+nul+1+20:])
 //@   ensures result1 ==> wide(result0.Filemode) == wide(pm0) && pm1 == nil
 //@   ensures result1 ==> old(iter.data)[sp] == 32 && old(iter.data)[sp+1+nul] == 0
+// ... and a well-formed entry is accepted (an entry is rejected only for a
+// missing SP, a mode that ParseUint rejects, a missing NUL or fewer than 20
+// bytes after it)
+//@   ensures len(old(iter.data)) > 0 && sp_reached && sp >= 0 && pm_reached && pm1 == nil && nul_reached && nul >= 0 && len(old(iter.data)) - (sp + 1 + nul + 1) >= 20 ==> result1 && result2 == nil
 
 //@ func (Tree).Size
 //@   pure
@@ -50,6 +54,12 @@ package git
 //@   ensures result2 == nil ==> forall k int :: 0 <= k && k < len(result0) ==> old(iter.data)[k] != ' '
 //@   ensures result2 == nil ==> forall k int :: 0 <= k && k < len(result1) ==> result1[k] != '\n'
 //@   ensures result2 == nil && old(iter.data)[0] == ' ' ==> len(result0) == 0
+// a line `<key> SP <value> LF` is accepted (the only errors: nothing left, no
+// space, no LF after the space)
+//@   call 0 strings.IndexByte as ke
+//@   call 1 strings.IndexByte as ve
+//@   ensures len(old(iter.data)) > 0 && ke_reached && ke >= 0 && ve_reached && ve >= 0 ==> result2 == nil
+//@   ensures len(old(iter.data)) == 0 ==> result2 != nil
 
 // ---------------------------------------------------------------- gitconfig.go (C15)
 
@@ -98,11 +108,19 @@ package git
 //@   ensures result1 == nil ==> forall k int :: 0 <= k && k < len(result0.data) ==> result0.data[k] == data[k]
 //@   ensures result1 == nil ==> forall k int :: 0 <= k && k < len(result0.data) - 1 ==> !(data[k] == 10 && data[k+1] == 10)
 
+// An id is exactly its 20 bytes / exactly what hex.DecodeString makes of its 40
+// digits; any other length is an error.
 //@ func OIDFromBytes
 //@   pure
+//@   ensures (result1 == nil) == (len(oidBytes) == 20)
+//@   ensures result1 == nil ==> result0 == oidat(oidBytes, 0)
 
 //@ func NewOID
 //@   pure
+//@   call 0 hex.DecodeString as dec
+//@   call 0 hex.DecodeString assert same(arg_0, s)
+//@   ensures (result1 == nil) == (dec1 == nil && len(dec0) == 20)
+//@   ensures result1 == nil ==> result0 == oidat(dec0, 0)
 
 //@ func (OID).MarshalJSON
 //@   pure
@@ -127,6 +145,11 @@ package git
 //@   loop 0 step forall k int :: 0 <= k && k < prev(len(parents)) ==> parents[k] == prev(parents)[k]
 //@   call 0 NewOID assert same(arg_0, nx1)
 //@   call 1 NewOID assert same(arg_0, nx1)
+// a commit is rejected only for these reasons: no header block, a malformed
+// header line, a parent / tree value that is not an object id, a second tree
+// line, or no tree line at all
+//@   call 0 NewObjectHeaderIter as it
+//@   ensures result1 != nil ==> (it_reached && it1 != nil) || (nx_reached && nx2 != nil) || (pOID_reached && pOID1 != nil) || (tOID_reached && tOID1 != nil) || (nx_reached && nx0 == "tree" && treeFound) || !treeFound
 //@   ensures result1 == nil ==> result0 != nil
 //@   ensures result1 == nil ==> wide(result0.Size) == min(wide(len(data)), 4294967295)
 
@@ -139,6 +162,10 @@ package git
 //@   loop 0 step nx0 == "type" ==> !prev(referentTypeFound) && referentTypeFound && same(referentType, nx1) && referent == prev(referent) && referentFound == prev(referentFound)
 //@   loop 0 step nx0 != "object" && nx0 != "type" ==> referent == prev(referent) && referentFound == prev(referentFound) && same(referentType, prev(referentType)) && referentTypeFound == prev(referentTypeFound)
 //@   call 0 NewOID assert same(arg_0, nx1)
+// a tag is rejected only for: no header block, a malformed header line, an
+// object value that is not an id, a second object / type line, or a missing one
+//@   call 0 NewObjectHeaderIter as it
+//@   ensures result1 != nil ==> (it_reached && it1 != nil) || (nx_reached && nx2 != nil) || (rOID_reached && rOID1 != nil) || (nx_reached && nx0 == "object" && referentFound) || (nx_reached && nx0 == "type" && referentTypeFound) || !referentFound || !referentTypeFound
 //@   ensures result1 == nil ==> result0 != nil
 //@   ensures result1 == nil ==> wide(result0.Size) == min(wide(len(data)), 4294967295)
 
@@ -148,14 +175,31 @@ package git
 // it must be represented exactly. It is not for objects of 4 GiB or more: a
 // recorded finding (known_findings.jsonl, region size > 2^32-1); below that
 // the clause is proved.
+// `<oid> SP <type> SP <size> LF`: the id, type and size are exactly the three
+// words; "<spec> missing" (a required object is absent, C10) and every other
+// shape is an error; a line of that shape with a valid id and size is accepted.
 //@ func ParseBatchHeader
 //@   pure
 //@   call 0 strconv.ParseUint as sz
+//@   call 0 NewOID as id
+//@   call 0 NewOID assert same(arg_0, words[0])
+//@   call 0 strconv.ParseUint assert same(arg_0, words[2]) && arg_1 == 10
+//@   ensures result1 == nil ==> id_reached && result0.OID == id0 && same(result0.ObjectType, words[1])
+//@   ensures len(header) == 0 ==> result1 != nil
+//@   ensures len(header) > 0 && words[len(words)-1] == "missing" ==> result1 != nil
+//@   ensures len(header) > 0 && words[len(words)-1] != "missing" && len(words) >= 3 && id1 == nil && sz1 == nil ==> result1 == nil
 //@   ensures @exact-size result1 == nil ==> uint64(result0.ObjectSize) == sz0
 //@   ensures result1 == nil ==> wide(result0.ObjectSize) == min(wide(sz0), 4294967295)
 
+// `<oid> SP <type> SP <size> SP <refname>`: four words, taken as they are.
 //@ func ParseReference
 //@   pure
+//@   call 0 NewOID as id
+//@   call 0 strconv.ParseUint as sz
+//@   call 0 NewOID assert same(arg_0, words[0])
+//@   call 0 strconv.ParseUint assert same(arg_0, words[2]) && arg_1 == 10 && arg_2 == 32
+//@   ensures result1 == nil ==> len(words) == 4 && result0.OID == id0 && same(result0.ObjectType, words[1]) && same(result0.Refname, words[3]) && wide(result0.ObjectSize) == wide(sz0)
+//@   ensures (result1 == nil) == (len(words) == 4 && id1 == nil && sz1 == nil)
 
 // ---------------------------------------------------------------- git.go (C13, C17)
 // Every git child process of a scan is built here. Postcondition (C13): the
